@@ -191,19 +191,14 @@ def ndpParseNext (it : NdpIter) : Except NdpErr (NdpOpt × NdpIter) :=
   | .error e => .error e
   | .ok (t, u) =>
     if u = 0 then .error (.zeroLength t)
+    else if u * 8 > it.options.length then
+      .error (.unexpectedEndOfSlice t (u * 8) it.options.length)
     else
-      let optionLen := u * 8
-      if optionLen > it.options.length then
-        .error (.unexpectedEndOfSlice t optionLen it.options.length)
-      else
-        let option := it.options.take optionLen
-        let rest := it.options.drop optionLen
-        let k := ndpKindOfType t
-        match ndpOptFromSlice k option with
-        | .error e => .error e
-        | .ok () =>
-          .ok ({ kind := k, off := it.off, bytes := option },
-               { off := it.off + optionLen, options := rest })
+      match ndpOptFromSlice (ndpKindOfType t) (it.options.take (u * 8)) with
+      | .error e => .error e
+      | .ok () =>
+        .ok ({ kind := ndpKindOfType t, off := it.off, bytes := it.options.take (u * 8) },
+             { off := it.off + u * 8, options := it.options.drop (u * 8) })
 
 /-- `Iterator::next`: `None` on an empty area; after an error the area is replaced by `&[]`. -/
 def ndpNext (it : NdpIter) : Option (Except NdpErr NdpOpt × NdpIter) :=
@@ -212,5 +207,57 @@ def ndpNext (it : NdpIter) : Option (Except NdpErr NdpOpt × NdpIter) :=
     match ndpParseNext it with
     | .error e => some (.error e, { off := it.off + it.options.length, options := [] })
     | .ok (o, it') => some (.ok o, it')
+
+/-- what a successful `parse_next_option` looks like. -/
+theorem ndpParseNext_ok {it it' : NdpIter} {o : NdpOpt} (h : ndpParseNext it = .ok (o, it')) :
+    2 ≤ it.options.length ∧ bAt it.options 1 ≠ 0 ∧ bAt it.options 1 * 8 ≤ it.options.length ∧
+      o = { kind := ndpKindOfType (bAt it.options 0), off := it.off,
+            bytes := it.options.take (bAt it.options 1 * 8) } ∧
+      it' = { off := it.off + bAt it.options 1 * 8,
+              options := it.options.drop (bAt it.options 1 * 8) } ∧
+      ndpOptFromSlice (ndpKindOfType (bAt it.options 0)) (it.options.take (bAt it.options 1 * 8))
+        = .ok () := by
+  unfold ndpParseNext ndpHeaderFromSlice at h
+  by_cases h2 : it.options.length < 2
+  · simp [h2] at h
+  · simp only [h2, if_false] at h
+    by_cases hu : bAt it.options 1 = 0
+    · simp [hu] at h
+    · simp only [hu, if_false] at h
+      by_cases hl : bAt it.options 1 * 8 > it.options.length
+      · simp [hl] at h
+      · simp only [hl, if_false] at h
+        split at h
+        · contradiction
+        · rename_i hs
+          simp only [Except.ok.injEq, Prod.mk.injEq] at h
+          exact ⟨by omega, hu, by omega, h.1.symm, h.2.symm, hs⟩
+
+/-- a successful step strictly shortens the remaining area (the length unit is non-zero). -/
+theorem ndpNext_ok_lt {it it' : NdpIter} {o : NdpOpt} (h : ndpNext it = some (.ok o, it')) :
+    it'.options.length < it.options.length := by
+  unfold ndpNext at h
+  split at h
+  · contradiction
+  · split at h
+    · simp at h
+    · rename_i o2 it2 hp
+      simp only [Option.some.injEq, Prod.mk.injEq, Except.ok.injEq] at h
+      obtain ⟨_, rfl⟩ := h
+      obtain ⟨_, hu, hl, _, rfl, _⟩ := ndpParseNext_ok hp
+      simp only [List.length_drop]
+      omega
+
+/-- the caller's loop `for item in iterator { … }`: the options handed out up to the end of the
+    area or the first error.  Terminates because every successful step shortens the area. -/
+def ndpRun (it : NdpIter) : List NdpOpt × Option NdpErr :=
+  match h : ndpNext it with  -- `h` feeds the termination proof
+  | none => ([], none)
+  | some (.error e, _) => ([], some e)
+  | some (.ok o, it') =>
+    let r := ndpRun it'
+    (o :: r.1, r.2)
+termination_by it.options.length
+decreasing_by exact ndpNext_ok_lt h
 
 end EpModel.View
